@@ -209,11 +209,22 @@ def check(ctx, res) -> None:
             res.undecided("R19.4", "get_changed|add_change", f"{gch.unit.rel}:{a.lineno}", "add_change is not inside a loop over matches")
             continue
         head = loops[-1]
-        overlap = [t for t in cfg.nodes if t.kind == "test" and any(sm == "start" and "last" in bg or sm == "start" and bg == "last_end"
-                                                                      for sm, bg, _ in _cmp_pairs(t.ast, True))]
+        # the region of the current match: S, E = match.get_region()
+        S = E = None
+        for x in walk_local(head.ast):
+            if isinstance(x, ast.Assign) and isinstance(x.targets[0], ast.Tuple) and len(x.targets[0].elts) == 2 \
+                    and isinstance(x.value, ast.Call) and call_name(x.value) == "get_region":
+                S, E = (e.id for e in x.targets[0].elts)
+        if S is None:
+            res.undecided("R19.4", "get_changed|add_change", f"{gch.unit.rel}:{a.lineno}", "region of the match is not unpacked from get_region()")
+            continue
+        # the watermark variable: assigned from E inside the loop
+        marks = {x.targets[0].id for x in walk_local(head.ast) if isinstance(x, ast.Assign) and isinstance(x.targets[0], ast.Name)
+                 and isinstance(x.value, ast.Name) and x.value.id == E}
+        overlap = [t for t in cfg.nodes if t.kind == "test" and any(sm == S and bg in marks for sm, bg, _ in _cmp_pairs(t.ast, True))]
         if not overlap:
             res.fail("R19.4", "get_changed|add_change", f"{gch.unit.rel}:{a.lineno}",
-                     "no overlap test (start < last_end) before add_change: overlapping statement matches are both replaced and ChangeCollector garbles the text")
+                     "no overlap test (match start < end of the last replaced match) before add_change: overlapping statement matches are both replaced and ChangeCollector garbles the text")
             continue
         t = overlap[0]
         avoid = [(t.id, b, l) for b, l in cfg.succ[t.id] if l == "false"]
@@ -224,7 +235,7 @@ def check(ctx, res) -> None:
         reach = cfg.reachable(body_entry[0], avoid_edges=avoid, avoid_nodes=[head.id]) if body_entry else set()
         ok = a.id not in reach
         upd = lambda n: n.kind == "stmt" and isinstance(n.ast, ast.Assign) and isinstance(n.ast.targets[0], ast.Name) \
-            and n.ast.targets[0].id == "last_end" and isinstance(n.ast.value, ast.Name) and n.ast.value.id == "end"
+            and n.ast.targets[0].id in marks and isinstance(n.ast.value, ast.Name) and n.ast.value.id == E
         ok2 = bool(body_entry) and cfg.must_pass_through(body_entry[0], a.id, upd)
         res.add("R19.4", "get_changed|add_change", ok and ok2, f"{gch.unit.rel}:{a.lineno}",
                 "an overlapping statement match is skipped before add_change and last_end is advanced for every replaced match" if ok and ok2 else
